@@ -89,10 +89,10 @@ func H_C17(tbl, router int) {
 	h.dispatch(c, rec, vReq{method: "OPTIONS", path: p}.http())
 	verifAssert(len(h.invoked) == 0, "C17: the OPTIONS filter let a route function run")
 	allow, acam := "", ""
-	if v := rec.hdr["Allow"]; len(v) > 0 {
+	if v := rec.out()["Allow"]; len(v) > 0 {
 		allow = v[0]
 	}
-	if v := rec.hdr["Access-Control-Allow-Methods"]; len(v) > 0 {
+	if v := rec.out()["Access-Control-Allow-Methods"]; len(v) > 0 {
 		acam = v[0]
 	}
 	verifObserveStr("options-allow", allow)
